@@ -338,6 +338,6 @@ SUBS = [
     Sub('random-n=5..8', oracle, _classify, strategy=_random_big,
         budget={'quick': 30, 'thorough': 34},
         case_timeout=900, timeout_is_violation=True, sample=_sample, purge_every=8,
-        require_tags=('family:dag', 'family:cyclic', 'family:forest', 'family:diamonds',
+        require_tags=('family:dag', 'family:cyclic', 'family:forest', 'family:diamonds', 'family:via-root',
                       'family:layered', 'family:two-lcs', '>=2-LCS')),
 ]
